@@ -87,3 +87,28 @@ impl<T: ?Sized> Mutex<T> {
     }
 }
 
+
+
+//------------ Verification hooks --------------------------------------------
+
+/// Pauses the calling thread at a named point (`--cfg routinator_verif` only).
+///
+/// The environment variable `ROUTINATOR_VERIF_PAUSE` holds a comma-separated
+/// list of `point:milliseconds` entries. Used to replay thread interleavings
+/// found by the verification machinery against the real code.
+#[cfg(routinator_verif)]
+pub fn verif_pause(point: &str) {
+    if let Ok(spec) = std::env::var("ROUTINATOR_VERIF_PAUSE") {
+        for item in spec.split(',') {
+            if let Some((name, ms)) = item.split_once(':') {
+                if name == point {
+                    if let Ok(ms) = ms.parse() {
+                        std::thread::sleep(
+                            std::time::Duration::from_millis(ms)
+                        );
+                    }
+                }
+            }
+        }
+    }
+}
